@@ -8,6 +8,8 @@ import (
 	"fmt"
 	"io"
 	"math"
+	"os"
+	"path/filepath"
 	"slices"
 	"strconv"
 	"strings"
@@ -310,6 +312,36 @@ var kBedFile = register(&Kind{Name: "bed_file",
 		if msg := bedReadBack(bytes.TrimSuffix(text, []byte("\n")), want); msg != "" {
 			return "no final LF: " + msg
 		}
+		// and read back from a file with bed.File (small files only)
+		if len(text) < 1<<16 {
+			dir, err := os.MkdirTemp("", "verif-c04-")
+			if err != nil {
+				panic(badCase("cannot create a temp dir"))
+			}
+			defer os.RemoveAll(dir)
+			path := filepath.Join(dir, "in.bed")
+			if err := os.WriteFile(path, text, 0o644); err != nil {
+				panic(badCase("cannot write the temp file"))
+			}
+			var got []*bed.BED
+			for b, err := range bed.File(path) {
+				if err != nil {
+					return "bed.File: error on a written file"
+				}
+				got = append(got, b)
+				if len(got) > len(want)+4 {
+					break
+				}
+			}
+			if len(got) != len(want) {
+				return fmt.Sprintf("bed.File reads %d records of a written file of %d", len(got), len(want))
+			}
+			for i := range got {
+				if bedVal(got[i]).String() != bedVal(want[i]).String() {
+					return fmt.Sprintf("bed.File: record %d does not read back as written", i)
+				}
+			}
+		}
 		return ""
 	}})
 
@@ -407,9 +439,16 @@ func (c *Ctx) bedByte() byte {
 // text free of TAB/CR/LF, biased to bytes that trouble line/CSV readers
 var bedTextAlphabet = []byte("\"\"##  ,,;:'\\+-._0123456789abcXYZchr\x00\x01\x7f\x80\xc3\xff\x0b\x0c")
 
+// words that other BED tools give a meaning to (UCSC header lines, placeholders,
+// byte-order marks): to this library they are ordinary field values
+var bedWords = []string{"track", "track7", "browser", "browser position chr1:1-100", "track name=x", ".", "..", "-", "+", "*",
+	"chr1", "chrM", "\xef\xbb\xbfchr1", "\xef\xbb\xbf", "0", "-1", "1e3", "0x10", "NA", "null", "nil", "//", "/*"}
+
 func (c *Ctx) bedText(allowHash bool) string {
 	var s []byte
-	switch c.Intn(8) {
+	switch c.Intn(9) {
+	case 8:
+		return bedWords[c.Intn(len(bedWords))]
 	case 0:
 		s = nil
 	case 1:
